@@ -175,7 +175,7 @@ func Select(hasDefault bool, cases ...Case) int {
 			s.hbEvent(t, objsOf(ks), -1)
 			return
 		}
-		i := ready[s.choose(len(ready), false, "select-case")]
+		i := ready[s.choose(len(ready), KindRace, "select-case")]
 		k := ks[i]
 		c := k.c
 		t.selIdx = i
@@ -186,7 +186,7 @@ func Select(hasDefault bool, cases ...Case) int {
 				return
 			}
 			if ps := partners(c.recvq, t); len(ps) > 0 && len(c.buf) == 0 {
-				w := ps[s.choose(len(ps), false, "recv-partner")]
+				w := ps[s.choose(len(ps), KindRace, "recv-partner")]
 				s.hbEvent(t, objsOf(ks), i)
 				s.complete(w, c, k.val, true)
 				return
@@ -202,14 +202,14 @@ func Select(hasDefault bool, cases ...Case) int {
 			s.hbEvent(t, objsOf(ks), i)
 			// a blocked sender refills the buffer
 			if ps := partners(c.sendq, t); len(ps) > 0 {
-				w := ps[s.choose(len(ps), false, "send-partner")]
+				w := ps[s.choose(len(ps), KindRace, "send-partner")]
 				c.buf = append(c.buf, w.val)
 				s.complete(w, c, nil, false)
 			}
 			return
 		}
 		if ps := partners(c.sendq, t); len(ps) > 0 {
-			w := ps[s.choose(len(ps), false, "send-partner")]
+			w := ps[s.choose(len(ps), KindRace, "send-partner")]
 			t.val, t.ok = w.val, true
 			s.hbEvent(t, objsOf(ks), i)
 			s.complete(w, c, nil, false)
